@@ -370,6 +370,21 @@ func (g *gen) mapNode(t reflect.Type, depth int, keyGen, valGen func() *Node) *N
 		var kn *Node
 		if keyGen != nil {
 			kn = keyGen()
+		} else if prev := len(nd.C); prev > 0 && t.Key().Kind() == reflect.Struct && nd.C[prev-2].K == "st" && genBool.Draw(g.rt, "ksib") {
+			// composite key: a sibling of the previous key that differs in ONE field only (the
+			// order of such keys is decided by the later fields, e.g. same hash, other length)
+			kt := t.Key()
+			kn = &Node{K: "st", C: append([]*Node(nil), nd.C[prev-2].C...)}
+			var exported []int
+			for f := 0; f < kt.NumField(); f++ {
+				if kt.Field(f).IsExported() {
+					exported = append(exported, f)
+				}
+			}
+			if len(exported) > 0 {
+				f := exported[rapid.IntRange(0, len(exported)-1).Draw(g.rt, "ksibf")]
+				kn.C[f] = g.value(kt.Field(f).Type, depth+2)
+			}
 		} else {
 			kn = g.value(t.Key(), depth+1)
 		}
